@@ -1,3 +1,4 @@
+import numbers
 import flowpaths.stdag as stdag
 from flowpaths.utils import safetypathcovers
 from flowpaths.utils import solverwrapper as sw
@@ -162,6 +163,9 @@ class AbstractPathModelDAG(ABC):
             utils.logger.error(f"{__name__}: The input graph G has no edges. Please provide a graph with at least one edge.")
             raise ValueError(f"The input graph G has no edges. Please provide a graph with at least one edge.")
         self.id = self.G.id
+        if isinstance(k, bool) or not isinstance(k, numbers.Integral) or k <= 0:
+            utils.logger.error(f"{__name__}: k must be a positive integer, not {k}")
+            raise ValueError(f"k must be a positive integer, not {k}")
         self.k = k
         self.length_attr = length_attr
         
